@@ -325,6 +325,24 @@ fn modify<ID: Eq + Hash, C: Conditions>(
     Ok(state)
 }
 
+/// Make sure the actor is an active member of the group with manager access.
+fn validate_manager<ID: Eq + Hash, C: Conditions>(
+    state: &GroupMembersState<ID, C>,
+    actor: ID,
+) -> Result<(), GroupMembershipError<ID>> {
+    let Some(actor_state) = state.members.get(&actor) else {
+        return Err(GroupMembershipError::UnrecognisedActor(actor));
+    };
+
+    if !actor_state.is_member() {
+        return Err(GroupMembershipError::InactiveActor(actor));
+    } else if !actor_state.is_manager() {
+        return Err(GroupMembershipError::InsufficientAccess(actor));
+    }
+
+    Ok(())
+}
+
 /// Promote a group member to the given access level.
 ///
 /// No modification will occur if the promoted member already has `Manage` access. In that case, the
@@ -342,6 +360,8 @@ pub fn promote<ID: Eq + Hash, C: Conditions>(
     if let Some(member) = state.members.get(&promoted) {
         // No action is required if the member is already set to the highest access level.
         let new_state = if member.is_manager() {
+            // Nothing to change, but the actor still needs to be allowed to perform this action.
+            validate_manager(&state, promoter)?;
             state
         } else {
             modify(state, promoter, promoted, access)?
@@ -370,6 +390,8 @@ pub fn demote<ID: Eq + Hash, C: Conditions>(
     if let Some(member) = state.members.get(&demoted) {
         // No action is required if the member is already set to the lowest access level.
         let new_state = if member.is_puller() {
+            // Nothing to change, but the actor still needs to be allowed to perform this action.
+            validate_manager(&state, demoter)?;
             state
         } else {
             modify(state, demoter, demoted, access)?
